@@ -48,7 +48,13 @@ var (
 		"frommap",
 		// the next frame runs INSIDE the iterator's return() method while an ordinary exception (thrown by this frame's own
 		// loop body / mapFn / the consuming built-in) is closing the iterator
-		"closeforof", "closemap", "closefrom", "closedestruct"}
+		"closeforof", "closemap", "closefrom", "closedestruct",
+		// generator delegation: this frame's body (with its handler) is a generator that reaches the next frame through
+		// `yield*` — to a generator whose body calls it (ygen), to a hand-written iterator whose next() calls it (ynext),
+		// through 2-3 nested levels of yield* (ynest), or to an iterator whose throw() / return() calls it when the outer
+		// generator is resumed with g.throw(x) / g.return(x) (ythrow, yreturn). The outer generator is driven by g.next(),
+		// for-of, spread or Array.from.
+		"ygen", "ynext", "ynest", "ythrow", "yreturn"}
 
 	Entries = []string{"fc", "fcr", "refl", "reflerr", "reflerr1", "method", "ctor", "ctorr", "pxget", "dynget", "getter"}
 	Exits   = []string{"callable", "construct", "expfn", "expfnerr", "get", "tryget", "forofnext", "forofstep", "tryforofnext", "tryforofstep", "run", "rtnew"}
@@ -80,6 +86,11 @@ func CanReturnErr(e string) bool { return e == "reflerr" || e == "reflerr1" || e
 // IsCloseVia: links where the rest of the chain runs inside return() during an IteratorClose with a throw completion.
 func IsCloseVia(v string) bool {
 	return v == "closeforof" || v == "closemap" || v == "closefrom" || v == "closedestruct"
+}
+
+// IsYieldVia: links where the frame is a delegating generator (see Vias).
+func IsYieldVia(v string) bool {
+	return v == "ygen" || v == "ynext" || v == "ynest" || v == "ythrow" || v == "yreturn"
 }
 
 // IsWrap: behaviours that return the error they got inside another error (fmt.Errorf("%w"), errors.Join, a custom type with Unwrap).
